@@ -14,13 +14,14 @@ EXTENDS Modularity, SequencesExt, Json
 
 CONSTANTS N, Finetune, QType, GN, GD, Vals, Gen
 VARIABLES W, start,
+          kc,              \* per-input constants [s0, s1, m0, m1, den] computed once
           A0, A1, nl,      \* current-level positive / negative matrices and their size
           cur,             \* original node -> current-level node
           m, knm0, knm1, km0, km1,
           order, pos, flag,
           h, qs,           \* qs: sequence of level values as integers over the common denominator
           res, pc, hist
-vars == <<W, start, A0, A1, nl, cur, m, knm0, knm1, km0, km1, order, pos, flag, h, qs, res, pc, hist>>
+vars == <<W, start, kc, A0, A1, nl, cur, m, knm0, knm1, km0, km1, order, pos, flag, h, qs, res, pc, hist>>
 
 UPairs == {p \in (1..N) \X (1..N) : p[1] < p[2]}
 Inputs == {Mat(N, LAMBDA i, j : IF i = j THEN 0 ELSE IF i < j THEN f[<<i, j>>] ELSE f[<<j, i>>])
@@ -30,18 +31,22 @@ Starts == IF Finetune
           ELSE {[i \in 1..N |-> i]}
 Perms(k) == {p \in [1..k -> 1..k] : {p[i] : i \in 1..k} = 1..k}
 
-S0 == Total(N, PosW(N, W))
-S1 == Total(N, NegW(N, W))
 (* qtype multipliers: Q = X0part/(gd*s0*den0) - X1part/(gd*s1*den1);                     *)
 (* den0 = s0 (sta, smp, pos) | s0+s1 (gja);  den1 = s1 (smp, neg) | s0+s1 (sta, gja)      *)
-Use0 == S0 > 0 /\ QType # "neg"
-Use1 == S1 > 0 /\ QType # "pos"
-Den0 == IF ~Use0 THEN 1 ELSE GD * S0 * (IF QType = "gja" THEN S0 + S1 ELSE S0)
-Den1 == IF ~Use1 THEN 1 ELSE GD * S1 * (IF QType \in {"smp", "neg"} THEN S1 ELSE S0 + S1)
-CG == Gcd(Den0, Den1)
-M0 == IF Use0 THEN Den1 \div CG ELSE 0
-M1 == IF Use1 THEN Den0 \div CG ELSE 0
-ComDen == (Den0 \div CG) * Den1
+ConstsOf(X) ==
+  LET s0 == Total(N, PosW(N, X))  s1 == Total(N, NegW(N, X))
+      use0 == s0 > 0 /\ QType # "neg"
+      use1 == s1 > 0 /\ QType # "pos"
+      den0 == IF ~use0 THEN 1 ELSE GD * s0 * (IF QType = "gja" THEN s0 + s1 ELSE s0)
+      den1 == IF ~use1 THEN 1 ELSE GD * s1 * (IF QType \in {"smp", "neg"} THEN s1 ELSE s0 + s1)
+      cg == Gcd(den0, den1)
+  IN [s0 |-> s0, s1 |-> s1, m0 |-> IF use0 THEN den1 \div cg ELSE 0,
+      m1 |-> IF use1 THEN den0 \div cg ELSE 0, den |-> (den0 \div cg) * den1]
+S0 == kc.s0
+S1 == kc.s1
+M0 == kc.m0
+M1 == kc.m1
+ComDen == kc.den
 
 Knm(n, A, lab) == [i \in 1..n |-> [mm \in 1..n |-> Sum({j \in 1..n : lab[j] = mm}, LAMBDA j : A[i][j])]]
 Km(n, A, lab) == [mm \in 1..n |-> Sum({j \in 1..n : lab[j] = mm}, LAMBDA j : InStr(n, A, j))]
@@ -49,6 +54,7 @@ Km(n, A, lab) == [mm \in 1..n |-> Sum({j \in 1..n : lab[j] = mm}, LAMBDA j : InS
 Init ==
   /\ W \in {X \in Inputs : Total(N, PosW(N, X)) > 0 /\ Total(N, NegW(N, X)) > 0}
   /\ start \in Starts
+  /\ kc = ConstsOf(W)
   /\ A0 = PosW(N, W) /\ A1 = NegW(N, W) /\ nl = N /\ cur = [i \in 1..N |-> i] /\ m = start
   /\ knm0 = Knm(N, PosW(N, W), start) /\ knm1 = Knm(N, NegW(N, W), start)
   /\ km0 = Km(N, PosW(N, W), start) /\ km1 = Km(N, NegW(N, W), start)
@@ -59,7 +65,7 @@ BeginSweep(p) ==
   /\ pc = "sweep"
   /\ order' = p /\ pos' = 1 /\ flag' = FALSE /\ pc' = "visit"
   /\ hist' = IF Gen THEN Append(hist, <<"perm", p>>) ELSE hist
-  /\ UNCHANGED <<W, start, A0, A1, nl, cur, m, knm0, knm1, km0, km1, h, qs, res>>
+  /\ UNCHANGED <<W, start, kc, A0, A1, nl, cur, m, knm0, knm1, km0, km1, h, qs, res>>
 
 (* s0, s1 are replaced by 1 in the code when absent; the corresponding multiplier is 0     *)
 X(A, knm, km, s, u, mm) ==
@@ -88,17 +94,17 @@ VisitTo(mb) ==
         ELSE /\ mb = 1 /\ UNCHANGED <<m, knm0, knm1, km0, km1, flag, hist>>
   /\ pos' = pos + 1
   /\ pc' = IF pos = nl THEN "endsweep" ELSE "visit"
-  /\ UNCHANGED <<W, start, A0, A1, nl, cur, order, h, qs, res>>
+  /\ UNCHANGED <<W, start, kc, A0, A1, nl, cur, order, h, qs, res>>
 
 EndSweep ==
   /\ pc = "endsweep"
   /\ pc' = IF flag THEN "sweep" ELSE "aggregate"
-  /\ UNCHANGED <<W, start, A0, A1, nl, cur, m, knm0, knm1, km0, km1, order, pos, flag, h, qs, res, hist>>
+  /\ UNCHANGED <<W, start, kc, A0, A1, nl, cur, m, knm0, knm1, km0, km1, order, pos, flag, h, qs, res, hist>>
 
 Pooled(n, A, lab, k) ==
   Mat(k, LAMBDA a, b : Sum({c \in (1..n) \X (1..n) : lab[c[1]] = a /\ lab[c[2]] = b}, LAMBDA c : A[c[1]][c[2]]))
 (* modularity of the ORIGINAL network for a partition, over ComDen                        *)
-QInt(lab) == SignedNum(N, W, lab, GN, GD, QType)
+QInt(lab) == M0 * ANum(N, PosW(N, W), lab, GN, GD) - M1 * ANum(N, NegW(N, W), lab, GN, GD)
 
 Aggregate ==
   /\ pc = "aggregate"
@@ -119,7 +125,7 @@ Aggregate ==
                 /\ km0' = [a \in 1..k |-> InStr(k, Pooled(nl, A0, mc, k), a)]
                 /\ km1' = [a \in 1..k |-> InStr(k, Pooled(nl, A1, mc, k), a)]
                 /\ order' = <<>> /\ pos' = 0 /\ flag' = FALSE
-  /\ UNCHANGED <<W, start, hist>>
+  /\ UNCHANGED <<W, start, kc, hist>>
 
 Emit ==
   /\ Gen /\ pc = "done"
@@ -127,7 +133,7 @@ Emit ==
                             qnum |-> qs[Len(qs)], qden |-> ComDen, gn |-> GN, gd |-> GD,
                             qtype |-> QType, levels |-> Len(qs)]))
   /\ pc' = "emitted"
-  /\ UNCHANGED <<W, start, A0, A1, nl, cur, m, knm0, knm1, km0, km1, order, pos, flag, h, qs, res, hist>>
+  /\ UNCHANGED <<W, start, kc, A0, A1, nl, cur, m, knm0, knm1, km0, km1, order, pos, flag, h, qs, res, hist>>
 
 Next == \/ \E p \in Perms(nl) : BeginSweep(p)
         \/ \E mb \in 1..nl : VisitTo(mb)
